@@ -712,6 +712,9 @@ func redactScalarValue(keyPath []string, v interface{}, isSearchStage bool, isSe
 			return RedactedBoolean
 		}
 		return v
+	case nil:
+		// null stays null: replacing it by a string would change the leaf type
+		return v
 	default:
 		return redactedString
 	}
